@@ -615,10 +615,20 @@ func parseActions(logger debuglog.Logger, actions string) ([]ruleAction, error) 
 	return res, nil
 }
 
+// unquoteActionValue removes the quotes that wrap an action value. Inside a
+// single-quoted value `\'` is the way to write a quote character (parseActions
+// does not end the value there), so it is turned back into a plain quote.
+func unquoteActionValue(val string) string {
+	if len(val) >= 2 && val[0] == '\'' && val[len(val)-1] == '\'' {
+		return strings.ReplaceAll(val[1:len(val)-1], `\'`, `'`)
+	}
+	return utils.MaybeRemoveQuotes(val)
+}
+
 func appendRuleAction(res []ruleAction, key string, val string, disruptiveActionIndex int) ([]ruleAction, int, error) {
 	key = strings.ToLower(strings.TrimSpace(key))
 	val = strings.TrimSpace(val) // We may want to keep case sensitive values (e.g. Messages)
-	val = utils.MaybeRemoveQuotes(val)
+	val = unquoteActionValue(val)
 	f, err := actionsmod.Get(key)
 	if err != nil {
 		return res, unset, err
